@@ -203,7 +203,7 @@ func TestVerifC05Dhcpd(t *testing.T) {
 		prop = "C05"
 	}
 	rep := verifkit.New(prop, "dhcpd",
-		"case = one round: a server from Create with DHCPv4 and DHCPv6 and its own DataDir, worked on concurrently by 2 DHCPv4 client goroutines (disjoint hardware addresses; DISCOVER/REQUEST/RELEASE/DECLINE through handle), a DHCPv4 and a DHCPv6 static-lease administrator, a DHCPv6 client goroutine (SOLICIT/REQUEST/RENEW through packetHandler), 2 readers and a leases.json observer, each a fixed number of seeded operations; every file snapshot must be one complete document, after the join one more store must leave file == memory and loadable; non-trivial = stores of the v4 and the v6 side overlapped in time during the round; distinct by round seed")
+		"case = one round: a server from Create with DHCPv4 and DHCPv6 and its own DataDir, worked on concurrently by 2 DHCPv4 client goroutines (disjoint hardware addresses; DISCOVER/REQUEST/RELEASE/DECLINE through handle), a DHCPv4 and a DHCPv6 static-lease administrator, a DHCPv6 client goroutine (SOLICIT/REQUEST/RENEW through packetHandler), 2 readers and a leases.json observer, each a fixed number of seeded operations; every file snapshot must be one complete document, after the join one more store must leave file == memory and loadable; non-trivial = stores of the v4 and the v6 side overlapped in time during the round; distinct by round seed.  A second family (600 rounds quick): a fresh server with a pool of 4-6 addresses, three bursts of 2-4 simultaneous DISCOVERs (each followed by its REQUEST) from ONE new hardware address per burst plus a reader; all copies must be offered one address, the lease list in memory, Leases() and leases.json must have one lease per hardware address and per address, inside the pool, and the pool must serve a full pool's worth of clients before and after everybody released; non-trivial = the DISCOVERs of a burst overlapped in time")
 	defer func() {
 		if err := rep.Write(); err != nil {
 			t.Fatal(err)
@@ -246,6 +246,10 @@ func TestVerifC05Dhcpd(t *testing.T) {
 		rep.EventN("store_overlaps_v4_v6", int(r.overlap46.Load()))
 		rep.EventN("store_overlaps_same_family", int(r.overlapSame.Load()))
 	}
+	if rep.EventCount("rounds_not_finished") > 0 {
+		return
+	}
+	c05dSameMAC(rep, base)
 	if rep.EventCount("rounds_not_finished") > 0 {
 		return
 	}
@@ -939,6 +943,7 @@ func (r *c05dRound) quiescence() {
 	}()
 	data, _ = r.compareOpt("lease-db:differs-from-memory-after-quiescence", "after all goroutines were joined and one more store was requested", false)
 	r.reload(data, "after the final store")
+	r.structure("mixed-workload")
 	r.rep.EventN("phases", r.phases)
 }
 
@@ -955,5 +960,347 @@ func (r *c05dRound) reload(data []byte, stage string) {
 			map[string]any{"size": len(data), "head": c05dClip(data)})
 	} else {
 		r.rep.Event("reloads_ok")
+	}
+}
+
+// ---------------------------------------------------------------------------
+// Structural invariants of the lease table, independent of the interleaving.
+
+// structure requires, with every goroutine joined: at most one DHCPv4 lease
+// per hardware address and per IP address in the server's list, in Leases()
+// and in leases.json, and every dynamic DHCPv4 address inside the pool.
+func (r *c05dRound) structure(family string) (ok bool) {
+	ok = true
+	r.rep.Event("structure_checks")
+	check := func(where string, ls []string) {
+		byMAC, byIP := map[string]string{}, map[string]string{}
+		for _, e := range ls {
+			p := strings.Split(e, "|")
+			if len(p) < 4 || strings.Contains(p[1], ":") {
+				// DHCPv6.
+				continue
+			}
+			if o, dup := byMAC[p[0]]; dup && p[0] != "00:00:00:00:00:00" {
+				ok = false
+				r.viol("stress:client-holds-two-leases:"+family,
+					fmt.Sprintf("%s lists two leases for the hardware address %s", where, p[0]),
+					map[string]any{"where": where, "first": o, "second": e, "all": ls})
+			}
+			if o, dup := byIP[p[1]]; dup {
+				ok = false
+				r.viol("stress:address-leased-twice:"+family,
+					fmt.Sprintf("%s lists two leases for the address %s", where, p[1]),
+					map[string]any{"where": where, "first": o, "second": e, "all": ls})
+			}
+			byMAC[p[0]], byIP[p[1]] = e, e
+			if p[3] == "static=false" {
+				a, err := netip.ParseAddr(p[1])
+				if err != nil || a.Less(r.pool[0]) || r.pool[len(r.pool)-1].Less(a) {
+					ok = false
+					r.viol("stress:dynamic-lease-outside-pool:"+family,
+						fmt.Sprintf("%s has the dynamic lease %s outside the pool", where, e), map[string]any{"all": ls})
+				}
+			}
+		}
+	}
+	var mem, view []string
+	r.v4.leasesLock.Lock()
+	for _, l := range r.v4.leases {
+		mem = append(mem, c05dLeaseStr(l))
+	}
+	r.v4.leasesLock.Unlock()
+	for _, l := range r.srv.Leases() {
+		view = append(view, c05dLeaseStr(l))
+	}
+	check("the lease list in memory", mem)
+	check("Leases()", view)
+	if data, err := os.ReadFile(filepath.Join(r.dir, "data", dataFilename)); err == nil {
+		if file, perr := c05dParse(data); perr == nil {
+			check("leases.json", file)
+		}
+	}
+
+	return ok
+}
+
+// ---------------------------------------------------------------------------
+// Same-client concurrency: several copies of one new client's DISCOVER (the
+// broadcast and a relayed copy, a retransmission) are handled at once.
+
+// c05dBurstRes is what one goroutine of a burst saw.
+type c05dBurstRes struct {
+	start, end time.Time
+	offer      netip.Addr
+	offered    bool
+	acked      bool
+}
+
+func c05dSameMAC(rep *verifkit.Report, base string) {
+	rounds := verifkit.Pick(600, 6000)
+	overlapped, bursts := 0, 0
+	for i := 0; i < rounds; i++ {
+		r := &c05dRound{rep: rep, n: 100000 + i, dir: filepath.Join(base, fmt.Sprintf("s%d", i))}
+		fin, nb, no := r.runSameMAC()
+		_ = os.RemoveAll(r.dir)
+		if !fin {
+			rep.Event("rounds_not_finished")
+
+			return
+		}
+		bursts += nb
+		overlapped += no
+		rep.Eval(no > 0, fmt.Sprintf("same-mac/%d/%d", rep.Seed, i))
+		if no > 0 {
+			rep.Class("same_mac_rounds_with_overlapping_discovers")
+		} else {
+			rep.Class("same_mac_rounds_without_overlap")
+		}
+	}
+	rep.EventN("same_mac_bursts", bursts)
+	rep.EventN("same_mac_bursts_with_overlapping_discovers", overlapped)
+	if overlapped*4 < bursts {
+		rep.Inconcl(fmt.Sprintf("same-client DISCOVERs overlapped in time in only %d of %d bursts", overlapped, bursts))
+	}
+}
+
+func (r *c05dRound) sameMACReq(mac net.HardwareAddr, mt dhcpv4.MessageType, xid uint32, extra ...dhcpv4.Modifier) *dhcpv4.DHCPv4 {
+	m := []dhcpv4.Modifier{
+		dhcpv4.WithTransactionID(dhcpv4.TransactionID{byte(xid >> 24), byte(xid >> 16), byte(xid >> 8), byte(xid)}),
+		dhcpv4.WithHwAddr(mac), dhcpv4.WithMessageType(mt), dhcpv4.WithBroadcast(true),
+		dhcpv4.WithRequestedOptions(dhcpv4.OptionSubnetMask, dhcpv4.OptionRouter),
+	}
+	req, _ := dhcpv4.New(append(m, extra...)...)
+
+	return req
+}
+
+// runSameMAC is one round: a fresh server with a pool of 4-6 addresses, three
+// bursts of 2-4 simultaneous DISCOVERs (each followed by a REQUEST for what
+// was offered) from one new hardware address per burst, a reader; then the
+// structural checks, and the pool must still serve a full pool's worth of
+// clients before and after everything is released.
+func (r *c05dRound) runSameMAC() (finished bool, bursts, overlapped int) {
+	rng := r.rep.Rand(fmt.Sprintf("same-mac/%d", r.n))
+	r.bcond = sync.NewCond(&r.bmu)
+	r.self = netip.MustParseAddr("192.168.50.2")
+	size := 4 + rng.Intn(3)
+	for i := 0; i < size; i++ {
+		r.pool = append(r.pool, netip.AddrFrom4([4]byte{192, 168, 50, byte(20 + i)}))
+	}
+	for _, d := range []string{"work", "data"} {
+		if err := os.MkdirAll(filepath.Join(r.dir, d), 0o755); err != nil {
+			r.rep.Inconcl("mkdir: " + err.Error())
+
+			return false, 0, 0
+		}
+	}
+	var err error
+	if r.srv, err = r.create(); err != nil {
+		r.rep.Inconcl("Create failed on a valid configuration: " + err.Error())
+
+		return false, 0, 0
+	}
+	var ok4, ok6 bool
+	r.v4, ok4 = r.srv.srv4.(*v4Server)
+	r.v6, ok6 = r.srv.srv6.(*v6Server)
+	if !ok4 || !ok6 {
+		r.rep.Inconcl(fmt.Sprintf("unexpected servers %T %T", r.srv.srv4, r.srv.srv6))
+
+		return false, 0, 0
+	}
+	r.v4.configureDNSIPAddrs([]net.IP{r.self.AsSlice()})
+
+	var xid atomic.Uint32
+	stopReader := make(chan struct{})
+	var readerWG sync.WaitGroup
+	r.guard("same-mac-reader", &readerWG, func(rrng *rand.Rand) {
+		for {
+			select {
+			case <-stopReader:
+				return
+			default:
+			}
+			_ = r.srv.HostByIP(r.pool[rrng.Intn(len(r.pool))])
+			_ = r.srv.Leases()
+			_ = r.srv.MACByIP(r.pool[rrng.Intn(len(r.pool))])
+			runtime.Gosched()
+		}
+	})
+
+	const nBursts = 3
+	var held []net.HardwareAddr
+	for b := 0; b < nBursts; b++ {
+		mac := net.HardwareAddr{2, 0, 0, 0, 0x5a, byte(b + 1)}
+		held = append(held, mac)
+		k := 2 + rng.Intn(3)
+		res := make([]c05dBurstRes, k)
+		start := make(chan struct{})
+		var wg sync.WaitGroup
+		for g := 0; g < k; g++ {
+			g := g
+			r.guard(fmt.Sprintf("same-mac-client-%d", g), &wg, func(_ *rand.Rand) {
+				disc := r.sameMACReq(mac, dhcpv4.MessageTypeDiscover, xid.Add(1))
+				<-start
+				res[g].start = time.Now()
+				typ, yi, _ := r.v4Exchange(disc)
+				res[g].end = time.Now()
+				r.rep.Event("same_mac:discover")
+				if typ != dhcpv4.MessageTypeOffer {
+					return
+				}
+				a, ok := netip.AddrFromSlice(yi.To4())
+				if !ok {
+					return
+				}
+				res[g].offer, res[g].offered = a, true
+				req := r.sameMACReq(mac, dhcpv4.MessageTypeRequest, xid.Add(1),
+					dhcpv4.WithOption(dhcpv4.OptRequestedIPAddress(yi)),
+					dhcpv4.WithOption(dhcpv4.OptServerIdentifier(r.self.AsSlice())))
+				typ, _, _ = r.v4Exchange(req)
+				r.rep.Event("same_mac:request")
+				res[g].acked = typ == dhcpv4.MessageTypeAck
+			})
+		}
+		close(start)
+		if !r.waitOrStall(&wg) {
+			close(stopReader)
+
+			return false, bursts, overlapped
+		}
+		bursts++
+		// Did two of the DISCOVERs overlap in time?
+		ov := false
+		for i := 0; i < k; i++ {
+			for j := i + 1; j < k; j++ {
+				if res[i].start.Before(res[j].end) && res[j].start.Before(res[i].end) {
+					ov = true
+				}
+			}
+		}
+		if ov {
+			overlapped++
+		}
+		// No lease change lies between the DISCOVERs of a burst (an ACK keeps the
+		// address), so every copy must have been offered the same address.
+		var first netip.Addr
+		for g := 0; g < k; g++ {
+			if !res[g].offered {
+				r.viol("stress:discover-unanswered:same-mac-discovers",
+					fmt.Sprintf("copy %d of the DISCOVER of %s got no OFFER although the pool of %d has at most %d clients", g, mac, size, b+1), nil)
+
+				continue
+			}
+			if !first.IsValid() {
+				first = res[g].offer
+			} else if first != res[g].offer {
+				var offers []string
+				for _, x := range res {
+					offers = append(offers, x.offer.String())
+				}
+				r.viol("stress:client-offered-different-addresses:same-mac-discovers",
+					fmt.Sprintf("%d simultaneous DISCOVERs of the new client %s were offered %v", k, mac, offers),
+					map[string]any{"offers": offers, "discovers_overlapped": ov})
+
+				break
+			}
+		}
+		if !r.structure("same-mac-discovers") {
+			break
+		}
+	}
+	close(stopReader)
+	if !r.waitOrStall(&readerWG) {
+		return false, bursts, overlapped
+	}
+	if r.rep.Violated() && r.panics.Load() > 0 {
+		return true, bursts, overlapped
+	}
+	r.compareOpt("lease-db:differs-from-memory-at-quiescence-without-extra-store", "after the same-client bursts were joined", true)
+
+	// The pool has size addresses and nBursts clients: size-nBursts further
+	// clients must each be served.
+	serve := func(mac net.HardwareAddr, stage string, clients int) bool {
+		typ, yi, _ := r.v4Exchange(r.sameMACReq(mac, dhcpv4.MessageTypeDiscover, xid.Add(1)))
+		if typ != dhcpv4.MessageTypeOffer {
+			r.viol("stress:pool-address-leaked",
+				fmt.Sprintf("%s: client number %d of a pool of %d addresses got no OFFER", stage, clients, size),
+				map[string]any{"stage": stage, "memory": c05dStrs(r.v4)})
+
+			return false
+		}
+		typ, _, _ = r.v4Exchange(r.sameMACReq(mac, dhcpv4.MessageTypeRequest, xid.Add(1),
+			dhcpv4.WithOption(dhcpv4.OptRequestedIPAddress(yi)),
+			dhcpv4.WithOption(dhcpv4.OptServerIdentifier(r.self.AsSlice()))))
+		if typ != dhcpv4.MessageTypeAck {
+			r.viol("stress:offered-address-not-acknowledged",
+				fmt.Sprintf("%s: the REQUEST of %s for the address just offered was not acknowledged", stage, mac), nil)
+
+			return false
+		}
+
+		return true
+	}
+	for c := nBursts; c < size; c++ {
+		mac := net.HardwareAddr{2, 0, 0, 0, 0x5b, byte(c)}
+		held = append(held, mac)
+		if !serve(mac, "after the same-client bursts", c+1) {
+			return true, bursts, overlapped
+		}
+	}
+	r.structure("same-mac-discovers")
+	// Everybody releases; then a full pool's worth of new clients.
+	for _, l := range r.srv.Leases() {
+		rel := r.sameMACReq(l.HWAddr, dhcpv4.MessageTypeRelease, xid.Add(1), dhcpv4.WithClientIP(l.IP.AsSlice()),
+			dhcpv4.WithOption(dhcpv4.OptServerIdentifier(r.self.AsSlice())))
+		r.v4Exchange(rel)
+	}
+	if n := len(r.srv.Leases()); n != 0 {
+		r.viol("stress:leases-left-after-release", fmt.Sprintf("%d leases left after every client released its lease", n),
+			map[string]any{"memory": c05dStrs(r.v4)})
+
+		return true, bursts, overlapped
+	}
+	for c := 0; c < size; c++ {
+		if !serve(net.HardwareAddr{2, 0, 0, 0, 0x5c, byte(c)}, "after every lease was released", c+1) {
+			return true, bursts, overlapped
+		}
+	}
+	r.rep.Event("same_mac_rounds_pool_refilled")
+	r.structure("same-mac-discovers")
+	r.compareOpt("lease-db:differs-from-memory-at-quiescence-without-extra-store", "at the end of a same-client round", true)
+
+	return true, bursts, overlapped
+}
+
+func c05dStrs(v4 *v4Server) (out []string) {
+	v4.leasesLock.Lock()
+	defer v4.leasesLock.Unlock()
+	for _, l := range v4.leases {
+		out = append(out, c05dLeaseStr(l))
+	}
+
+	return out
+}
+
+// waitOrStall waits for wg with the watchdog of the rounds.
+func (r *c05dRound) waitOrStall(wg *sync.WaitGroup) (ok bool) {
+	done := make(chan struct{})
+	go func() {
+		wg.Wait()
+		close(done)
+	}()
+	start := time.Now()
+	for {
+		select {
+		case <-done:
+			return true
+		case <-time.After(time.Second):
+			el := time.Since(start)
+			if el > c05dWatchdog || (r.panics.Load() > 0 && el > 10*time.Second) {
+				r.rep.Inconcl(fmt.Sprintf("round %d: goroutines did not finish within %s, %d panic(s) recovered before", r.n, el.Round(time.Second), r.panics.Load()))
+
+				return false
+			}
+		}
 	}
 }
